@@ -425,10 +425,17 @@ class Facts:
         # helpers that the pinned tree does not have are inlined into their callers (exact summary; see vf/inline.py)
         from .inline import inline_new_helpers
         self.inlined_helpers = inline_new_helpers(self.raw)
+        self.sid_alias = self.raw.get("sid_alias", {})
         self.crate = self.raw["crate"]
         self.features = self.raw["features"]
         self.rustc = self.raw["rustc"]
         self.bodies = [Body(b, self) for b in self.raw["bodies"]]
+        for b in self.bodies:
+            # renamed / moved private functions are seen under the name the pinned tree gave them
+            if b.sid in getattr(self, "sid_alias", {}):
+                b.orig_sid = b.sid
+                b.sid = self.sid_alias[b.sid]
+                b.name = b.sid.rsplit("::", 1)[-1]
         self.by_id = {b.id: b for b in self.bodies}
         self.consts = self.raw["consts"]
         self.adts = self.raw["adts"]
